@@ -225,6 +225,13 @@ class Analyzer:
             if "k" in op:
                 if op.get("fn"):
                     return set()
+                m = re.fullmatch(r"(.*)::promoted\[(\d+)\]", op["k"])
+                if m:
+                    pb = self.prog.bodies.get(m.group(1))
+                    if pb is not None:
+                        for pi, lit in pb.j.get("promoted", []):
+                            if pi == int(m.group(2)) and lit:
+                                return {("const", lit)}
                 return {("const", op["k"])}
             return place_terms(mir.op_place(op))
 
